@@ -14,4 +14,17 @@ func init() {
 		Stub:      []string{"SimKV index rows (atomic batches, durable per call)", "SimStore blob source", "sync / go4.org/syncutil import-path shims (scheduler yield points)", "injected accessors pkg/index: VerifAwaitReindex, VerifPending, VerifNeeds, VerifSetReindexMaxProcs"},
 		MustReach: []string{"missing-dep-fetch", "missing-dep-index", "reindex-goroutine-ran", "restart-mid-history", "restart-with-pending", "out-of-order-claim-date", "delete-chain-depth3", "perm-exhaustive", "race-put", "check-with-pending", "file-bytes-tree", "static-set-merge"},
 	}
+	specs["C06"] = &propSpec{
+		ID: "C06", Engine: "indexsim", Level: "exploration",
+		QuickRuns: 30000, ThoroughRuns: 900000, Chunk: 50, WatchdogS: 400,
+		Rule: "one evaluation = one world and arrival history as in C05 (2-12 blobs; concurrent clients, duplicates, held-back dependencies, restarts, racing source puts) on an index with a corpus (KeepInMemory before the first arrival, or at a seeded point of the history: scanned, then incremental); sub-runs = comparison points (quick: 3 seeded prefixes + the end; thorough: in half of the runs every prefix) at which, at quiescence, a fresh index.New over a copy of the rows + KeepInMemory is opened and a battery of exported reads is put to both under the index read lock: for every ref of the world and two absent ones GetBlobMeta, Index.IsDeleted, Corpus.IsDeleted, KeyId, GetFileInfo, GetDirMembers, Corpus.GetDirChildren/GetParentDirs/GetWholeRef/GetBlobMeta/ForeachClaimBack, EdgesTo, PathsOfSignerTarget; for every permanode AppendClaims (signer and attribute filters), PathsLookup, PermanodeModtime, PermanodeAnyTime, ForeachClaim, and PermanodeAttrValue / AppendPermanodeAttrValues / PermanodeHasAttrValue for every claimed attribute, signer filter and instant T in {zero, each claim date -1ns/+0/+1ns, seeded instants}; globally SearchPermanodesWithAttr, PermanodeOfSignerAttrValue, GetRecentPermanodes, EnumerateBlobMeta, EnumeratePermanodesLastModified/Created (sequences), EnumerateCamliBlobs, EnumeratePermanodesByNodeTypes; answers documented as unordered are compared as sets; non-trivial = at least 2 deliveries; distinct = distinct (corpus mode, blob-kind sequence, lock-yield rate)",
+		Assume: []string{
+			"SimKV is the only key/value backend exercised here (C10 holds the other implementations to the same contract)",
+			"search.Handler queries are not part of the battery",
+			"differences are attributed to a recorded finding only when the blobs involved match its mechanism (cause tag in the signature); every other difference fails the check",
+		},
+		Real:      []string{"pkg/index (ReceiveBlob, corpus.addBlob and merge functions, index.New, KeepInMemory/scanFromStorage, every read method of the battery)", "pkg/schema", "pkg/jsonsign"},
+		Stub:      []string{"SimKV index rows", "SimStore blob source", "sync / go4.org/syncutil shims"},
+		MustReach: []string{"compare-with-pending", "corpus-scanned-mid-history", "restart-mid-history", "out-of-order-claim-date", "delete-before-target", "answers-compared"},
+	}
 }
